@@ -128,8 +128,8 @@ Lemma popcount_land_ones : forall w b,
 Proof.
   intros w b. rewrite N.land_ones.
   rewrite (popcount_spec (N.to_nat b)).
-  - f_equal. apply count_below_ext. intros k Hk.
-    apply N.mod_pow2_bits_low. lia.
+  - rewrite (count_below_ext (N.testbit (w mod 2 ^ b)) (N.testbit w) (N.to_nat b)); [reflexivity|].
+    intros k Hk. apply N.mod_pow2_bits_low. lia.
   - rewrite N2Nat.id. apply N.mod_lt. apply N.pow_nonzero. lia.
 Qed.
 
@@ -215,7 +215,8 @@ Lemma count_below_word : forall x r,
   x < 2 ^ 64 -> N.of_nat (count_below (bm_get (x :: r)) 64) = popcount x.
 Proof.
   intros x r Hx. rewrite (popcount_spec 64) by exact Hx.
-  f_equal. apply count_below_ext. intros k Hk. apply bm_get_cons_low. lia.
+  rewrite (count_below_ext (bm_get (x :: r)) (N.testbit x) 64); [reflexivity|].
+  intros k Hk. apply bm_get_cons_low. exact Hk.
 Qed.
 
 Lemma index_rank64_nth : forall ws, words_ok ws -> forall n0 w x,
@@ -301,7 +302,7 @@ Proof.
     + intros [Hxy Hs]. constructor; [assumption|].
       inversion Hs as [|? ? Hs' Hall]; subst.
       constructor; [assumption|].
-      eapply Forall_impl; [|exact Hall]. cbn. intros. lia.
+      eapply Forall_impl; [|exact Hall]. cbv beta. intros. lia.
     + intros Hs. inversion Hs as [|? ? Hs' Hall]; subst. split; [|assumption].
       inversion Hall; assumption.
 Qed.
@@ -309,7 +310,7 @@ Qed.
 Lemma sorted_tail_words : forall i r w,
   Forall (N.lt i) r -> N.succ w <= word_of i -> Forall (fun j => N.succ w <= word_of j) r.
 Proof.
-  intros i r w Hall Hw. eapply Forall_impl; [|exact Hall]. cbn. intros j Hj.
+  intros i r w Hall Hw. eapply Forall_impl; [|exact Hall]. cbv beta. intros j Hj.
   pose proof (word_of_mono i j). lia.
 Qed.
 
@@ -481,8 +482,8 @@ Proof.
   - cbn [length]. rewrite (IH n Hs').
     destruct (N.eqb_spec n x); [lia|]. cbn [orb]. lia.
   - assert (x = n) by lia. subst x.
-    assert (H1 : Forall (fun i => N.succ n <= i) r) by (eapply Forall_impl; [|exact Hall]; cbn; intros; lia).
-    assert (H2 : Forall (fun i => n <= i) r) by (eapply Forall_impl; [|exact Hall]; cbn; intros; lia).
+    assert (H1 : Forall (fun i => N.succ n <= i) r) by (eapply Forall_impl; [|exact Hall]; cbv beta; intros; lia).
+    assert (H2 : Forall (fun i => n <= i) r) by (eapply Forall_impl; [|exact Hall]; cbv beta; intros; lia).
     pose proof (count_lt_none r _ H1) as C1. pose proof (count_lt_none r _ H2) as C2.
     unfold count_lt in C1, C2. cbn [length]. rewrite C1, C2, N.eqb_refl. reflexivity.
   - destruct (N.eqb_spec n x); [lia|]. cbn [orb]. apply (IH n Hs').
@@ -509,7 +510,7 @@ Proof.
   inversion Hs as [|? ? Hs' Hall]; subst.
   destruct j as [|j].
   - cbn [nth]. apply count_lt_none. constructor; [lia|].
-    eapply Forall_impl; [|exact Hall]. cbn. intros. lia.
+    eapply Forall_impl; [|exact Hall]. cbv beta. intros. lia.
   - cbn [nth]. cbn [length] in Hj.
     assert (Hin : In (nth j r 0) r) by (apply nth_In; lia).
     rewrite Forall_forall in Hall. apply Hall in Hin.
